@@ -119,6 +119,17 @@ func decide(r *Result, ans map[string]string, win string, el float64, tier strin
 				r.Status = "canary-failed"
 			}
 		}
+		if r.Status == "canary-failed" && r.Obl.PrePrefix > 0 && r.FV != nil {
+			// after-call canary: is the path dead already before the call?
+			pf := strings.TrimSuffix(r.File, ".smt2") + ".pre.smt2"
+			os.WriteFile(pf, []byte(r.FV.VC.renderPre(r.FV.Prelude, r.Obl)), 0o644)
+			pans, _, _ := race(pf, 5, false)
+			for _, a := range pans {
+				if a == "unsat" {
+					r.Status = "canary-ok" // dead path: nothing is assumed on it
+				}
+			}
+		}
 		return
 	}
 	hasUnsat, hasSat := false, false
